@@ -481,7 +481,14 @@ def int_spellings(r: Any, thorough: bool) -> list[str]:
         for x in exps:
             for e in ("e", "E"):
                 for p in ("", "+"):
-                    if r.random() < (0.35 if not thorough else 1.0) or x in ("23", "400", "4299", "4300"):
+                    if len(x) == 4 and x != "0003":
+                        # near the digit limit: 10^4299 costs the model about a second
+                        if (e, p) != ("e", "") and not (thorough and m == "1"):
+                            continue
+                        if m not in ("1", "12", "-1", "00") and not thorough:
+                            continue
+                        out.append(m + e + p + x)
+                    elif r.random() < (0.35 if not thorough else 1.0) or x in ("23", "400"):
                         out.append(m + e + p + x)
     out += ["1" + "0" * 4299, "1" + "0" * 4300, "9" * 4300, "-" + "9" * 4299, "-" + "9" * 4300]
     return list(dict.fromkeys(out))
